@@ -22,3 +22,11 @@ Definition flat_pc (x : list (list (list (list (list T))))) : list T := concat (
 Definition flat_pc1 (x : list (list (list T))) : list T := concat (concat x).
 
 End O.
+
+(* util.get_indices_from_identifiers: exact comparison of the model's index list with the implementation's *)
+From Coq Require Import String.
+Definition idx_check (all_ids : list string) (ids : option (list string)) (expected : list nat) : N * N * N :=
+  match indices_from_identifiers all_ids ids with
+  | Some l => if list_eq_dec Nat.eq_dec l expected then (1, 0, 0)%N else (0, 0, 1)%N
+  | None => (0, 0, 1)%N
+  end.
